@@ -4,10 +4,12 @@ import os
 import random
 import tracegen
 import framework as fw
+import translate
 
 ID = "C17"
 COQ_IMPORTS = ["From HTA.model Require Import C17_Model."]
 SOURCES = {"hta/trace_diff.py": ["LabeledTrace", "TraceDiff", "_trace_argument_adapter"], "hta/utils/utils.py": ["shorten_name", "flatten_column_names"]}
+TRANSLATE = [translate.gen_diff_rules]
 N_CASES = {"quick": 200, "thorough": 3000}
 RULE = ("pairs of generated file sets (1-3 ranks each, 1-4 profiler steps, different vocabularies; one pair in six compares a set with itself); rank selection "
         "drawn from {default, single, proper subset list, all}, iteration selection from {default, single, list}, device filter ALL/CPU/GPU, long or short names "
